@@ -103,6 +103,51 @@ CLAIMED.update({
             TECH + "; exhaustive enumeration of the discrete configuration space", "4/C32"),
 })
 
+CLAIMED.update({
+    "C22": ("Relational: _block_singletons on inputs (symbolic coordinates) and re-phased copies gives identical blocks, "
+            "spans, counts and block membership; blocks are the two leaf edges of one individual covering the mutation; "
+            "phased individuals are never blocked; infer+rescale prefix on two input phasings uses identical counts.",
+            "EP's block updates depend on the input only through block_likelihoods/block_nodes; fitted phases not NaN.",
+            TECH + "; relational (two-input) execution", "4/C22"),
+    "C23": ("infer (flip/placement) + rescale prefix + reallocate_unphased with symbolic phases in [0,1] on 3 layouts x both "
+            "match_segregating_sites: phased edges/spans unchanged, each block's edges get exactly its singletons in total, "
+            "the placed edge gets the share >= 1/2.  Found defect F7 (repaired: fix commit 8c402f4).",
+            "Fitted phases not NaN; rest of rescale is C25.", TECH, "4/C23"),
+    "C24": ("_count_mutations (plain / frequency-weighted / explicit sample set) and _block_singletons on 11 skeletons with "
+            "symbolic breakpoints, length and site positions: every edge span / mutation tally / block span / singleton "
+            "count equals a direct per-tree tally via tskit's Tree API.  Found defect F5 (repaired: cd76f03).",
+            "tskit index arrays of the skeleton (depend only on coordinate order).", TECH, "4/C24"),
+    "C25": ("mutational_area = direct overlap sums for every ordering of node times; point map = reference piecewise-linear "
+            "map, fixes 0, monotone, fixed untouched; one rescaling iteration keeps samples and node order; re-projected "
+            "posterior has mapped mean, positive rate, shape in (0, max_shape]; approximate_gamma_iqr capped.",
+            "gammainc_inv uninterpreted (positive, increasing in q); Newton loops followed for <= 2 iterations; zero-count "
+            "intervals are C35's finding F3.", TECH + "; QF_NRA", "4/C25"),
+    "C26": ("_fixed_changepoints on symbolic count vectors (length 1-5, entries >= 0 incl. exact zeros, 1-4 epochs): ends 0 "
+            "and n, non-decreasing, interior boundary k is the last index with cumulative fraction <= k/epochs.",
+            "Only the fixed-changepoint helper (the one date() uses) is claimed; the Poisson/PELT helper's optimality needs "
+            "x*log(x) values no installed SMT theory decides and is stated as not decided.", TECH, "4/C26"),
+    "C29": ("_split_disjoint_nodes + _relabel_mutations_node on 11 skeletons with symbolic coordinates: edges map back "
+            "(local trees unchanged), leftmost piece keeps id, new ids = split_nodes, contiguity, samples never split, "
+            "mutations on the piece present at their position.  Known finding F11 (edgeless nodes / trailing gap).",
+            "Node-table rewrite and metadata packing are tskit's.", TECH, "4/C29"),
+    "C30": ("_contains_unary_nodes with symbolic breakpoints (with/without sample mask) equals a per-tree oracle on 12 "
+            "skeletons; contains_unary_nodes, has_locally_unary_nodes, _check_valid_inputs compared with the same oracle.",
+            "tskit index arrays of the skeleton.", TECH, "4/C30"),
+    "C34": ("run_date/run_preprocess with recorders and solver-chosen present/absent/explicit-zero options: each option "
+            "reaches the API under its name as the same object, invalid combinations exit before load/dump, valid ones "
+            "call once and dump once; boolean option spellings convert correctly.  Found defect F9 (repaired: b5774cf).",
+            "File equality follows from equal kwargs plus determinism (C09, not decided).", TECH + "; data-flow", "4/C34"),
+    "C35": ("Validation layer of date()/variational_gamma/inside_outside/maximization with solver-chosen parameters (symbolic "
+            "reals, NaN/inf/None, small integer sets, presence flags) and marker engines: only ValueError/NotImplementedError, "
+            "rejected before the engine, every validity condition implied on returning paths, result shape; rescaling "
+            "kernels with zero counts (known finding F3).  Found defects F1, F2, F4, F14 (repaired).",
+            "Bounded: one small input; engines are markers; EP kernel assertions are C05/C21; discrete-method rate "
+            "validation happens inside the engine.", TECH, "4/C35"),
+    "C37": ("rescale_tree_sequence on 4-6 skeletons with symbolic node times and rate, recording tables: returns, samples "
+            "kept, monotone map, mutations at branch midpoints / at the node above roots.  Found defect F6 (repaired: 04dea37).",
+            "tskit validation of rebuilt tables trusted; zero-count intervals are C35/F3.", TECH, "4/C37"),
+})
+
 NOT_APPLICABLE = {
     "C02": "Every row/column effect of get_modified_ts happens inside tskit's C table routines on concrete "
            "arrays; no symbolic input reaches a branch of tsdate code, so there is nothing for a solver to "
